@@ -540,7 +540,7 @@ def prol_task(item):
         out['max_fine'] = max(out['max_fine'], len(fine))
         if len(fine) != len(coarse):
             out['nonidentity'] += 1
-        for order in ('natural', 'reversed', 'natural-after-further-refinement'):
+        for order in ('natural', 'reversed', 'coarse-natural-fine-reversed', 'natural-after-further-refinement'):
             if order == 'natural-after-further-refinement':
                 # the two stored element lists stay nested meshes when the mesh object is refined further
                 try:
@@ -548,7 +548,7 @@ def prol_task(item):
                 except Exception as ex:
                     raise HarnessError('further refinement of {} {} raised {!r}'.format(cfgname, hist, ex))
             cl = coarse if order != 'reversed' else coarse[::-1]
-            fl = fine if order != 'reversed' else fine[::-1]
+            fl = fine if order not in ('reversed', 'coarse-natural-fine-reversed') else fine[::-1]
             vec = _vec(len(cl))
             want = estim_ref.prolongate_ref(vec, [rect_of(e) for e in cl], [rect_of(e) for e in fl])
             if any(w is None for w in want):
